@@ -425,9 +425,10 @@ std::string run_case(const std::vector<std::string>& w)
       // or - with "order:<member>,<member>,..." - in the given interleaving (each entry defines the next argument
       // of that member) after all handlers were created
       std::vector<pa::Handler*> hs;
+      pa::Handler* lastMember = nullptr;
       auto create = [&](Member& m) {
          pa::Handler* h;
-         if (useGroups)
+         if (useGroups && m.subkey.empty())
          {
             auto sp = pa::Groups::instance().getArgHandler(m.name, m.flags);
             shared.push_back(sp);
@@ -491,9 +492,12 @@ std::string run_case(const std::vector<std::string>& w)
             constrain(hs.back(), m);
             if (!m.subkey.empty())
             {
-               if (single == nullptr) throw std::invalid_argument("sub-group without main handler");
-               single->addArgument(m.subkey, *hs.back(), "sub-group " + m.subkey);
-            }
+               // the owner of a sub-group: the single handler, or in a group the member defined last before it
+               pa::Handler* owner = useGroups ? lastMember : single;
+               if (owner == nullptr) throw std::invalid_argument("sub-group without main handler");
+               owner->addArgument(m.subkey, *hs.back(), "sub-group " + m.subkey);
+            } else
+               lastMember = hs.back();
          }
       } else
       {
